@@ -22,6 +22,9 @@
    * "the time-bounded variant counts only interactions after the cutoff, whichever representation
      the timestamps have"                                               -> time_bounded_counts_after_cutoff,
                                                                            time_representation_irrelevant
+   * the cutoff of the time-bounded variant is an instant, however it is written (clock reading + UTC offset)
+                                                                        -> cutoff_is_an_instant,
+                                                                           cutoff_offset_is_part_of_the_cutoff
    * "for every rating dataset ... zero offsets for unknown users or items" at the level of identifiers
      (vocabularies in arrival order, identifiers of any value)             -> identifiers_resolve,
                                                                            offset_by_identifier,
@@ -139,6 +142,25 @@ Theorem time_representation_irrelevant : forall ni cutoff r (log : list (nat * Q
 Proof. exact time_repr_irrelevant_l. Qed.
 Print Assumptions time_representation_irrelevant.
 
+(* "counts only interactions after the cutoff": the cutoff is an instant.  Two ways of writing the same instant
+   (a UTC reading, a +05:00 reading five hours ahead, epoch seconds, ...) give the same counts *)
+Theorem cutoff_is_an_instant : forall ni rep c1 c2 log, cut_instant c1 == cut_instant c2 ->
+  tb_counts ni rep (cut_instant c1) log = tb_counts ni rep (cut_instant c2) log.
+Proof. exact cutoff_same_instant_l. Qed.
+Print Assumptions cutoff_is_an_instant.
+
+(* ... and the offset is part of the value: taking the clock reading as if it were UTC moves the cutoff by the
+   offset, and every interaction between the two instants is then counted wrongly *)
+Theorem cutoff_offset_is_part_of_the_cutoff : forall c,
+  cut_instant {| c_wall := c_wall c; c_off := 0 |} == cut_instant c + c_off c /\
+  forall t,
+  (cut_instant c < t -> t <= c_wall c ->
+     after_cutoff TNum (cut_instant c) t = true /\ after_cutoff TNum (c_wall c) t = false) /\
+  (c_wall c < t -> t <= cut_instant c ->
+     after_cutoff TNum (cut_instant c) t = false /\ after_cutoff TNum (c_wall c) t = true).
+Proof. intro c. split; [exact (cutoff_misread_shift_l c)|exact (cutoff_offset_counts_l c)]. Qed.
+Print Assumptions cutoff_offset_is_part_of_the_cutoff.
+
 (* identifier level.  A vocabulary lists identifiers in order of arrival (any order, any values: zero,
    negative, the code of the empty string); an identifier that occurs in it resolves to its position and
    one that does not resolves to nothing -- the value of the identifier plays no part. *)
@@ -215,6 +237,9 @@ Example c08_nonvacuous :
   quantile_ok_b Qeq_bool [2; 1; 1; 0]%nat [Some 1; Some (1 # 2); Some (1 # 2); Some 0] = false /\
   tb_counts 2 (TDate 1000) (3 # 2) [(0%nat, 1000); (0%nat, 2000); (1%nat, 1500)] = [1; 0]%nat /\
   tb_counts 2 TNum (3 # 2) [(0%nat, 1); (0%nat, 5 # 2); (1%nat, 3 # 2)] = [1; 0]%nat /\
+  (* a cutoff written as 05:00:01.5 on a +05:00 clock is the instant 1.5 s; read as UTC it would count nothing *)
+  tb_counts 2 TNum (cut_instant {| c_wall := 36003 # 2; c_off := 18000 |}) [(0%nat, 1); (0%nat, 5 # 2); (1%nat, 3 # 2)] = [1; 0]%nat /\
+  tb_counts 2 TNum (36003 # 2) [(0%nat, 1); (0%nat, 5 # 2); (1%nat, 3 # 2)] = [0; 0]%nat /\
   (* identifier level: an unsorted vocabulary holding 0 and a negative identifier *)
   (let users : vocab := [7; 0; -1]%Z in let items : vocab := [5; -2; 0]%Z in
    NoDup users /\ NoDup items /\ number users 0%Z = Some 1%nat /\ number users 3%Z = None /\
@@ -235,7 +260,7 @@ Proof.
   split; [eexists; split; [reflexivity|]; vm_compute; intuition discriminate|].
   split; [eexists; split; [reflexivity|]; vm_compute; intuition discriminate|].
   split; [vm_compute; reflexivity|].
-  do 5 (split; [vm_compute; reflexivity|]).
+  do 7 (split; [vm_compute; reflexivity|]).
   split; [|vm_compute; reflexivity].
   split; [repeat constructor; cbn; intuition discriminate|].
   split; [repeat constructor; cbn; intuition discriminate|].
